@@ -28,12 +28,30 @@ def run_property(prop: str, tier: str, seed: int, only_keys: set[str] | None = N
     extra = {}
     if tier == 'thorough' and hasattr(mod, 'thorough'):
         extra = mod.thorough(ctx) or {}
+    audit_problem = None
+    if tier == 'thorough' and only_keys is None and os.environ.get('AEIC_VERIF_NO_AUDIT') != '1':
+        from .audit.run import run as audit_run
+        from .report import load_known
+        known = {k['key'] for k in load_known() if k.get('status') == 'known'}
+        base_viol = len({o.key for o in ctx.obligations if not o.ok and o.key not in known})
+        a = audit_run(prop, base_viol)
+        extra = dict(extra, **a)
+        au = a.get('audit')
+        if isinstance(au, dict):
+            print(f'audit: {au["silent_ok"]}/{len(au["preserving"])} behaviour-preserving variants silent, '
+                  f'{au["detected"]}/{len(au["breaking"]) - sum(1 for v in au["breaking"].values() if v.startswith("skipped"))} '
+                  f'breaking variants detected, {au["skipped"]} skipped')
+            if au['false_alarms'] or au['missed']:
+                audit_problem = f'audit: false alarms on {au["false_alarms"]}, missed {au["missed"]}'
     if only_keys is not None:
         ctx.obligations = [o for o in ctx.obligations if o.key in only_keys]
         if not ctx.obligations:
             print('replay: the recorded constructs no longer exist in the tree '
                   '(nothing to re-check)')
-    return finish(ctx, t0, seed, extra)
+    rc = finish(ctx, t0, seed, extra)
+    if audit_problem and rc == 0:
+        raise AnalysisError(audit_problem)
+    return rc
 
 
 def main(argv=None) -> int:
